@@ -319,6 +319,34 @@ theorem counterexample_default_not_json :
     ∧ wfOf (flat "K" ["a"] [("a", .integer {}), ("l", .seqOf .list (.enumCls "Color" ["RED", "GREEN"]) {})]
       [("l", .list [.enumv "Color" "RED"])]) = false := by decide
 
+def exSetCls : FieldDecl :=
+  flat "K" ["s"] [("s", .setOf false (.string none none none) { max := some 3 }),
+                  ("u", .seqOf .list (.integer {}) { uniq := true }),
+                  ("t", .tupleOf (.enumCls "Color" ["RED", "GREEN"]) true),
+                  ("a", .setAny false {})]
+
+def exSetVal : PyVal :=
+  .inst "K" [("s", .set false [.str "a", .str "b"]), ("u", .list [.int 1, .int 2]),
+             ("t", .tuple [.enumv "Color" "RED", .enumv "Color" "GREEN"]),
+             ("a", .set false [.int 1, .str "x"])]
+
+/-- Set (typed and untyped) and `uniqueItems` on Array / Tuple are inside `schema_admits_partial` when the
+    JSON images of the elements are pairwise distinct (`distinctImages`, part of the region) -/
+theorem admits_set_unique_example :
+    inSchemaFragment exSetCls = true ∧ inAdmitRegion exO exSetCls exSetVal = true
+    ∧ (match serialize exO exSetCls exSetVal with
+       | .ok j => schemaAccepts exS exSetCls 0 j
+       | .error _ => false) = true := by decide
+
+/-- finding `admits:uniqueItems`: a tuple and a list are different for Python and have one JSON
+    image; the instance is well-formed, outside the region, and its serialization is rejected -/
+theorem counterexample_unique_items :
+    wellFormed anyO (flat "K" ["u"] [("u", .seqAny .list { uniq := true }), ("b", .boolean)])
+      (.inst "K" [("u", .list [.tuple [.int 1], .list [.int 1]])]) = true
+    ∧ inAdmitRegion anyO (flat "K" ["u"] [("u", .seqAny .list { uniq := true }), ("b", .boolean)])
+      (.inst "K" [("u", .list [.tuple [.int 1], .list [.int 1]])]) = false
+    ∧ verdict (flat "K" ["u"] [("u", .seqAny .list { uniq := true }), ("b", .boolean)])
+      (.inst "K" [("u", .list [.tuple [.int 1], .list [.int 1]])]) = false := by decide
 /-- finding `exact:positional-shorter`: positional `Tuple` / `Array` items carry no `minItems`, so
     a shorter array is admitted by the schema and rejected by the Deserializer -/
 theorem counterexample_exact_positional_shorter :
